@@ -416,11 +416,18 @@ Proof.
     + intros Ed Er; inversion Ed; inversion Er; subst. split; [reflexivity | assumption].
 Qed.
 
+(* the containment tests run again before a deferred entry is retried (F38) say yes on the initial tree (dry run)
+   and on every tree the real run can be in *)
+Definition retest_d (b : backlog_entry) : Prop :=
+  backlog_verify fixed s0 (fst (fst b)) (snd (fst b)) (snd b) = None /\
+  forall wd wr, SimD wd wr -> backlog_verify fixed (w_fs wr) (fst (fst b)) (snd (fst b)) (snd b) = None.
+
 Definition ready (b : backlog_entry) : Prop :=
   let d := fst (fst b) in let src := snd (fst b) in let dst := snd b in
   ready_src d src /\
   ((plain_rel s0 d dst /\ removelast (pp_parts dst) = removelast (pp_parts src)) \/
-   (exists pre, dd_rel s0 d dst pre /\ anc (d ++ pre))).
+   (exists pre, dd_rel s0 d dst pre /\ anc (d ++ pre))) /\
+  retest_d b.
 
 Lemma chdir_simd wd wr d p :
   SimD wd wr -> anc d -> plain_rel s0 d p ->
@@ -436,7 +443,7 @@ Lemma simd_renamer_ready wd wr d src dst wd' ed wr' er :
   renamer dD wd d src dst false = (wd', ed) -> renamer dR wr d src dst false = (wr', er) ->
   ed = er /\ SimD wd' wr'.
 Proof.
-  intros HS [RS Hdst]. cbn [fst snd] in RS, Hdst.
+  intros HS [RS [Hdst _]]. cbn [fst snd] in RS, Hdst.
   destruct Hdst as [[Pd Epar]|[pre [Pdd Ha]]].
   - apply simd_renamer; assumption.
   - destruct (simd_renamer_dd wd wr d src dst pre HS Pdd Ha) as [Xd Xr].
@@ -451,9 +458,10 @@ Proof.
   revert wd wr cwd. induction bl as [|[[d src] dst] rest IH]; intros wd wr cwd PB HS; cbn [second_pass].
   - intros Ed Er; inversion Ed; inversion Er; subst. split; [reflexivity | assumption].
   - inversion PB as [|? ? PE PB']; subst. pose proof PE as PE0.
-    destruct PE as [[Hd [Ps _]] _]. cbn [fst snd] in Hd, Ps.
+    destruct PE as [[Hd [Ps _]] [_ [Rt0 Rt]]]. cbn [fst snd] in Hd, Ps, Rt0, Rt.
     cbn [dD dR c_var fixed v_backlog_chdir].
     destruct (chdir_simd _ _ _ _ HS Hd Ps) as [-> ->].
+    rewrite (sd_fs _ _ HS). rewrite Rt0, (Rt _ _ HS).
     destruct (renamer dD wd d src dst false) as [wd1 ed1] eqn:Rd.
     destruct (renamer dR wr d src dst false) as [wr1 er1] eqn:Rr.
     destruct (simd_renamer_ready _ _ _ _ _ _ _ _ _ HS PE0 Rd Rr) as [E S1]. subst er1.
@@ -498,15 +506,21 @@ Proof.
       assert (Pdd : dd_rel s0 (pf_dir f) np (removelast (pp_parts (pf_rel f)))) by (rewrite Enp; apply dd_rel_dest; assumption).
       pose proof (dd_rel_real _ _ _ _ _ HS Pdd Ha) as Pdd'.
       rewrite (contained_dd s0 f np _ W0 Pdd), (contained_dd (w_fs wr) f np _ (sd_wf _ _ HS) Pdd').
-      destruct (is_prefix_path (pf_dir f) (removelast (pf_dir f ++ removelast (pp_parts (pf_rel f))))).
+      destruct (is_prefix_path (pf_dir f) (removelast (pf_dir f ++ removelast (pp_parts (pf_rel f))))) eqn:IP.
       2:{ intros Ed Er; inversion Ed; inversion Er; subst. fpd_done. }
+      assert (RT : retest_d (pf_dir f, pf_rel f, np)).
+      { split; cbn [fst snd].
+        - exact (verify_yes_dd s0 MDirectory f _ np _ W0 G eq_refl Ps Pdd IP).
+        - intros wd2 wr2 HS2.
+          exact (verify_yes_dd (w_fs wr2) MDirectory f _ np _ (sd_wf _ _ HS2) G eq_refl
+                   (plain_rel_real _ _ _ _ HS2 Ps Ha) (dd_rel_real _ _ _ _ _ HS2 Pdd Ha) IP). }
       rewrite (dest_parent_test_generated fixed _ s0 f _ np G eq_refl (source_contained_rel s0 f W0 Ps)),
               (dest_parent_test_generated fixed _ (w_fs wr) f _ np G eq_refl (source_contained_rel (w_fs wr) f (sd_wf _ _ HS) Ps')).
       rewrite (parents_contained_dd s0 f np _ W0 Pdd), (parents_contained_dd (w_fs wr) f np _ (sd_wf _ _ HS) Pdd').
       rewrite (source_contained_rel s0 f W0 Ps), (source_contained_rel (w_fs wr) f (sd_wf _ _ HS) Ps').
       destruct (simd_renamer_dd wd wr (pf_dir f) (pf_rel f) np _ HS Pdd Ha) as [-> ->].
       cbn [is_file_exists].
-      apply IH; try assumption. constructor; [|assumption]. split; cbn [fst snd]; [assumption|].
+      apply IH; try assumption. constructor; [|assumption]. split; cbn [fst snd]; [assumption|]. split; [|exact RT].
       right. exists (removelast (pp_parts (pf_rel f))). split; assumption.
     + assert (Ht : t <> dotdot) by (intros E; apply name_eqb_eq in E; congruence).
       assert (Pd : plain_rel s0 (pf_dir f) np) by (rewrite Enp; apply plain_rel_dest; assumption).
@@ -522,8 +536,17 @@ Proof.
         destruct (exists_last (pr_ne _ _ _ Pd)) as [pre [y Ey]]. rewrite Ey in *. rewrite removelast_snoc in Ha2.
         rewrite app_assoc in *. apply (NLd i tg). exact (sd_nl _ _ HS _ _ _ _ Ha2 K). }
       rewrite (contained_rel (w_fs wr) f np (sd_wf _ _ HS) Pd' NLr).
-      destruct (is_prefix_path (pf_dir f) (pf_dir f ++ pp_parts np)).
+      destruct (is_prefix_path (pf_dir f) (pf_dir f ++ pp_parts np)) eqn:IP.
       2:{ intros Ed Er; inversion Ed; inversion Er; subst. fpd_done. }
+      assert (RT : retest_d (pf_dir f, pf_rel f, np)).
+      { split; cbn [fst snd].
+        - exact (verify_yes_plain s0 MDirectory f _ np W0 G eq_refl Ps Pd NLd IP).
+        - intros wd2 wr2 HS2.
+          apply (verify_yes_plain (w_fs wr2) MDirectory f _ np (sd_wf _ _ HS2) G eq_refl
+                   (plain_rel_real _ _ _ _ HS2 Ps Ha) (plain_rel_real _ _ _ _ HS2 Pd Ha2)); [|exact IP].
+          intros i tg K.
+          destruct (exists_last (pr_ne _ _ _ Pd)) as [pre [y Ey]]. rewrite Ey in *. rewrite removelast_snoc in Ha2.
+          rewrite app_assoc in *. apply (NLd i tg). exact (sd_nl _ _ HS2 _ _ _ _ Ha2 K). }
       rewrite (dest_parent_test_generated fixed _ s0 f _ np G eq_refl (source_contained_rel s0 f W0 Ps)),
               (dest_parent_test_generated fixed _ (w_fs wr) f _ np G eq_refl (source_contained_rel (w_fs wr) f (sd_wf _ _ HS) Ps')).
       rewrite (parents_contained_rel s0 f np W0 Pd), (parents_contained_rel (w_fs wr) f np (sd_wf _ _ HS) Pd').
@@ -533,7 +556,7 @@ Proof.
       destruct (simd_renamer _ _ _ _ _ _ _ _ _ HS RS Pd Epar Rd Rr) as [E S1]. subst er1.
       destruct ed1 as [e|]; [|apply IH; assumption].
       destruct (is_file_exists e).
-      * apply IH; try assumption. constructor; [|assumption]. split; cbn [fst snd]; [assumption|].
+      * apply IH; try assumption. constructor; [|assumption]. split; cbn [fst snd]; [assumption|]. split; [|exact RT].
         left. split; assumption.
       * intros Ed Er; inversion Ed; inversion Er; subst. fpd_done.
 Qed.
